@@ -34,6 +34,7 @@ type ProveResult struct {
 	ByBackend    map[string]int `json:"by_backend"`
 	Trusted      []string       `json:"trusted"`
 	NotCovered   []string       `json:"not_covered"`
+	DeadReturns  []string       `json:"dead_returns"`
 }
 
 type VerdictJSON struct {
@@ -288,9 +289,31 @@ func (p *Program) prove(pr *Prover, re *regexp.Regexp, prop string, verbose bool
 			failedFn[v.Func] = true
 		}
 	}
+	// a function is vacuous when every one of its returns is unreachable (a single dead return is dead code)
+	nCanary := map[string]int{}
+	for _, v := range all[len(jobs):] {
+		nCanary[v.Oblig.Func]++
+	}
+	nProved := map[string]int{}
 	for _, o := range canaryProved {
-		if !failedFn[o.Func] {
+		nProved[o.Func]++
+	}
+	for _, o := range canaryProved {
+		if !failedFn[o.Func] && nProved[o.Func] == nCanary[o.Func] {
 			res.CanaryProved = append(res.CanaryProved, o.Name)
+		} else if !failedFn[o.Func] {
+			res.DeadReturns = append(res.DeadReturns, o.Name)
+		}
+	}
+	if (prop == "" || prop == "C13") && re == nil {
+		for _, v := range p.purityScan() {
+			res.Verdicts = append(res.Verdicts, v)
+			if v.Status == "proved" {
+				res.ByBackend[v.Backend]++
+			}
+		}
+		for k, why := range externWhitelist {
+			res.Assumptions = append(res.Assumptions, "external "+k+": "+why)
 		}
 	}
 	for k := range ext {
@@ -300,6 +323,7 @@ func (p *Program) prove(pr *Prover, re *regexp.Regexp, prop string, verbose bool
 	for k := range assum {
 		res.Assumptions = append(res.Assumptions, k)
 	}
+	sort.Strings(res.Assumptions)
 	sort.Strings(res.Assumptions)
 	return res
 }
